@@ -426,6 +426,8 @@ def make(seed, **kw):
         return make_wholecol(seed)
     if kw.pop('overlaps', False) and seed % 5 == 2:
         return make_overlap(seed)
+    if kw.pop('blockranges', False) and seed % 5 == 4:
+        return make_blockrange(seed)
     if kw.pop('case_titles', False) and 'sheets' not in kw:
         if seed % 4 == 3:
             kw['sheets'] = LAYOUT_CASE
@@ -516,6 +518,40 @@ def make_overlap(seed):
     g.cells[f2] = {'k': 'f', 'e': ['fn', fn2, [rect(3, 4, 1, 2)]]}           # 4 cells, 1 blank
     g.order += [f1, f2]
     g.directed = [[at(3)], [at(2)], [at(3), at(1)], [at(4)]]
+    g.seed = seed
+    return g
+
+
+def make_blockrange(seed):
+    """An array-formula block that lies wholly inside a larger referenced range (also
+    reachable through a defined name): g.directed_ranges names that range as worth
+    supplying values through."""
+    rnd = random.Random(seed * 67 + 3)
+    g = Gen(rnd, sheets=LAYOUT[:1], features=('names',))
+    b, s = LAYOUT[0]
+    for r in (1, 2):
+        g.cells[cid(b, s, 1, r)] = {'k': 'c', 'v': norm(rnd.choice(NUMS))}
+        g.order.append(cid(b, s, 1, r))
+    anchor = cid(b, s, 2, 1)                                   # {B1:B2 = A1:A2 * 2}
+    g.cells[anchor] = {'k': 'af', 'e': ['op', rnd.choice(['*', '+']), ['rng', b, s, 1, 1, 1, 2], ['c', norm(V.N(2))]],
+                       'r': 2, 'c': 1, 'rect': [b, s, 2, 1, 2, 2]}
+    sp = cid(b, s, 2, 2)
+    g.cells[sp] = {'k': 'sp', 'anchor': anchor, 'i': 2, 'j': 1}
+    g.order += [anchor, sp]
+    g.reserved |= {anchor, sp}
+    for r in (1, 2):
+        g.cells[cid(b, s, 3, r)] = {'k': 'c', 'v': norm(rnd.choice(NUMS))}
+        g.order.append(cid(b, s, 3, r))
+    big = ['rng', b, s, 2, 1, 3, 2]                             # B1:C2 holds the block and C1:C2
+    fcells = {cid(b, s, 4, 1): ['fn', rnd.choice(['SUM', 'MAX']), [big]],
+              cid(b, s, 4, 2): ['op', '+', ['ref', sp], ['c', norm(V.N(1))]],
+              cid(b, s, 4, 3): ['fn', 'SUM', [['rng', b, s, 2, 1, 2, 2]]]}
+    for i, e in fcells.items():
+        g.cells[i] = {'k': 'f', 'e': e}
+        g.order.append(i)
+    if rnd.random() < 0.5:
+        g.names['ALPHA_X'] = list(big)
+    g.directed_ranges = [big]
     g.seed = seed
     return g
 
